@@ -1,4 +1,5 @@
 import PtnModel.Proofs.EvoDmrgMain
+import PtnModel.Proofs.EvoExample
 /-!
 # C10 — DMRG energies are variational, consistent with the returned state and monotone
 
@@ -146,5 +147,34 @@ theorem dmrg1_variational {k : EvoKernels 𝕜 ℝ} {H : MPO 𝕜} {ψ ψ' : MPS
     rw [← RCLike.ofReal_mul, RCLike.ofReal_re]
   rw [this, mul_comm]
   exact mul_le_mul_of_nonneg_left (hall e he).1 (sq_nonneg nrm)
+
+/-! ## non-vacuity
+
+Concrete objects as in `Props/C08.lean` (`PtnModel/Proofs/EvoExample.lean`).  The hypothesis "the driver returns `.ok`" is
+witnessed by the runs of the correspondence check (`harness/props/c10.py`), not by a Lean term over `ℂ`. -/
+
+/-- hypotheses of `dmrg1_energy_consistent` / `dmrg1_variational` (other than the run): kernel contracts with one Lanczos
+iteration, Hermitian shaped MPO with `L = 2`, admissible start state (the lower-bound clause is universally quantified
+over `μ` with `DenseLower`, so it needs no witness).  The hypothesis `Canon` of `qr_step_dense` is what `prologue_inv`
+(`Proofs/EvoDmrgMain.lean`) establishes for the state after the prologue. -/
+example : SweepCtx exK exOC exψC.qd 1 ∧ 2 ≤ exOC.A.length ∧ Admissible exψC :=
+  ⟨exK_ctx, by decide, exψC_adm⟩
+
+/-- hypotheses of `local_ritz` including the successful run: the Hermitian one-site operator `[[1, i], [-i, -1]]`, start
+tensor `(1, 0)`, one Lanczos iteration -/
+example : ∃ r : ℝ × T3 ℂ, NormContract exK.cnorm ∧ LocalFits (ones111 : T3 ℂ) ones111 exW exA.d0 exA.d1 exA.d2 ∧
+    LocalHermitian (ones111 : T3 ℂ) ones111 exW exA.d0 exA.d1 exA.d2 ∧
+    C15.EighAt (localHFun (ones111 : T3 ℂ) ones111 exW exA.d0 exA.d1 exA.d2) exK.cnorm exK.deigh (flat3 exA) 1 ∧
+    minimizeLocalEnergy exK ones111 ones111 exW exA 1 = .ok r := by
+  obtain ⟨r, h⟩ := minimize_ok_one (k := exK) rfl (L := ones111) (R := ones111) (W := exW) exA_pos
+  exact ⟨r, sqrtNorm_contract, exLocal_fits, exLocal_herm, eighAt_one _ _ _, h⟩
+
+/-- hypotheses of `local_of_blocks`: blocks of `exψC` with the Hermitian MPO `exOC` exist -/
+example : C04.MPS.Shaped exψC 2 ∧ C04.MPO.Shaped exOC 2 ∧ C04.MPO.DenseHermitian exOC 2 ∧
+    (∃ Lb : T3 ℂ, IsLeftBlock exψC exOC 2 0 Lb) ∧ ∃ Rb : T3 ℂ, IsRightBlock exψC exOC 2 1 Rb := by
+  have hψ : C04.MPS.Shaped exψC 2 := ⟨exψC_adm.nonempty, exψC_adm.chain3⟩
+  obtain ⟨BR, _, _, h⟩ := C04.right_blocks_dense hψ exOC_shaped rfl
+  obtain ⟨E, _, hE⟩ := h 0 (by decide)
+  exact ⟨hψ, exOC_shaped, exOC_herm, ⟨_, C04.left_block_zero_dense hψ exOC_shaped rfl⟩, E, hE⟩
 
 end Ptn.C10
